@@ -1,1 +1,54 @@
-fn main() { println!("{}", "x".len()); }
+//! Re-renders `render` cases with real ANSI colours (tephra-error built without
+//! its `no-color` feature).  stdin: case lines of family `render`; stdout: the
+//! same cases as family `rendercolor` with colour forced on; observation =
+//! coloured output | owned-copy flag | plain output (colour disabled).
+
+#[path = "../../harness/src/render.rs"]
+mod render;
+
+use std::io::BufRead;
+
+fn parse_text(s: &str) -> String {
+    if s.is_empty() || s == "-" {
+        return String::new();
+    }
+    s.split(',')
+        .filter_map(|item| item.split(':').next().and_then(|c| c.parse::<u32>().ok()).and_then(char::from_u32))
+        .collect()
+}
+
+fn parse_le(s: &str) -> tephra_span::LineEnding {
+    match s {
+        "cr" => tephra_span::LineEnding::Cr,
+        "crlf" => tephra_span::LineEnding::CrLf,
+        _ => tephra_span::LineEnding::Lf,
+    }
+}
+
+fn main() {
+    std::panic::set_hook(Box::new(|_| {}));
+    colored::control::set_override(true);
+    let stdin = std::io::stdin();
+    let mut out = String::new();
+    for line in stdin.lock().lines() {
+        let line = match line { Ok(l) => l, Err(_) => break };
+        let parts: Vec<&str> = line.split('\t').collect();
+        if parts.len() < 9 || parts[0] != "render" { continue; }
+        let f = &parts[1..parts.len() - 1];
+        let mut c = match render::parse_case(f, parse_text(f[0]), parse_le(f[1])) { Some(c) => c, None => continue };
+        c.color = true;
+        let coloured = render::render_obs(&c);
+        c.color = false;
+        let plain = render::render_obs(&c);
+        let plain_out = plain.split('|').next().unwrap_or("").to_string();
+        out.push_str("rendercolor");
+        for (i, x) in f.iter().enumerate() {
+            out.push('\t');
+            out.push_str(if i == 4 { "1" } else { x });
+        }
+        out.push('\t');
+        out.push_str(&format!("{}|{}", coloured, plain_out));
+        out.push('\n');
+    }
+    print!("{out}");
+}
